@@ -34,7 +34,7 @@ type key struct {
 var keys = []key{{"GET", "h.com/a", "1"}, {"GET", "h.com/a", "2"}, {"POST", "h.com/a", "1"}}
 
 type cfg struct {
-	Mode string // "cache-tight" (two entries fit) | "cache-roomy" | "throttle-relative" | "throttle-absolute"
+	Mode string // "cache-tight" (two entries fit) | "cache-overwrite" (three small fit, one key may grow) | "cache-roomy" | "throttle-relative" | "throttle-absolute"
 }
 
 type event struct {
@@ -50,10 +50,16 @@ func (e event) String() string {
 	case "req":
 		return fmt.Sprintf("req(k%d)", e.k+1)
 	case "resp":
-		return fmt.Sprintf("resp(k%d,%s,%d)", e.k+1, e.body, e.st)
+		b := e.body
+		if len(b) > 3 {
+			b = fmt.Sprintf("%c*%d", b[0], len(b))
+		}
+		return fmt.Sprintf("resp(k%d,%s,%d)", e.k+1, b, e.st)
 	}
 	return fmt.Sprintf("tick(%v)", e.d)
 }
+
+var bigBody = strings.Repeat("B", 100)
 
 func alphabet(c cfg) []event {
 	var ev []event
@@ -65,6 +71,10 @@ func alphabet(c cfg) []event {
 			ev = append(ev, event{kind: "resp", k: k, body: "x", st: 200})
 		}
 		ev = append(ev, event{kind: "resp", k: 0, body: "y", st: 201})
+		if c.Mode == "cache-overwrite" {
+			// overwrite of a key still present with a much larger record
+			ev = append(ev, event{kind: "resp", k: 0, body: bigBody, st: 200})
+		}
 	} else {
 		ev = append(ev, event{kind: "resp", k: 0, body: "x", st: 429}, event{kind: "resp", k: 2, body: "x", st: 429},
 			event{kind: "resp", k: 0, body: "y", st: 429}, event{kind: "resp", k: 0, body: "z", st: 200})
@@ -109,7 +119,11 @@ func newModel(c cfg) *model {
 		if c.Mode == "cache-tight" {
 			mb = float32(2*entryBytes()+20) / 1024 / 1024
 		}
-		m.cc = &sharedConfig.CachingConfig{TTLSeconds: float32(ttl.Seconds()), MaxRecordSizeBytes: 100, MaxCacheSizeMegabytes: mb,
+		if c.Mode == "cache-overwrite" {
+			// three small records fit, a 100-byte record plus two small ones do not
+			mb = float32(3*entryBytes()+27) / 1024 / 1024
+		}
+		m.cc = &sharedConfig.CachingConfig{TTLSeconds: float32(ttl.Seconds()), MaxRecordSizeBytes: 300, MaxCacheSizeMegabytes: mb,
 			RequestPayloadPaths: []sharedConfig.PayloadPath{{PayloadType: sharedConfig.PayloadRequestPathParams.String(), Path: "id"}}}
 		m.maxMB = float64(mb)
 	} else {
@@ -271,7 +285,7 @@ func (m *model) Key() string {
 	return impl + "||" + strings.Join(cs, ",") + fmt.Sprintf("||ns=%d", now.UnixNano()%int64(time.Second))
 }
 
-var configs = []cfg{{"cache-tight"}, {"cache-roomy"}, {"throttle-relative"}, {"throttle-absolute"}}
+var configs = []cfg{{"cache-tight"}, {"cache-overwrite"}, {"cache-roomy"}, {"throttle-relative"}, {"throttle-absolute"}}
 
 func TestCheck(t *testing.T) {
 	r := mc.New("C12", "model_checking")
@@ -365,6 +379,32 @@ func schedules(t *testing.T, r *mc.Run) {
 			x.Logf("entries=%d", strings.Count(d, ";")+1)
 			if actual > max+1e-12 {
 				return "CACHE-SIZE:concurrent-stores", fmt.Sprintf("after two concurrent stores the cache holds %.0f bytes, configured maximum %.0f bytes (%s)", actual*1024*1024, max*1024*1024, d)
+			}
+			return "", ""
+		}})
+	// (1b) two in-flight responses for the same key (both requests missed), the second one
+	// much larger; afterwards two more small records are offered one after the other
+	mc.Explore(t, r, &mc.SchedOpts{Name: "two-stores-same-key-growing", MaxPreempt: pre, MaxT: 0,
+		Body: func(x *mc.Exec) {
+			m := newModel(cfg{"cache-overwrite"})
+			x.Vals["m"] = m
+			for i, body := range []string{"x", bigBody} {
+				name := fmt.Sprintf("S%d", i)
+				x.Go(name, func() {
+					m.cache.OnResponse(lunarMessages.OnResponse{ID: "0" + fmt.Sprint(i+1), Method: keys[0].Method, URL: keys[0].URL, Status: 200, Headers: map[string]string{"h": "v"}, Body: body}, m.cc, map[string]string{"id": keys[0].ID})
+					x.Logf("%s stored", name)
+				})
+			}
+		},
+		Check: func(x *mc.Exec) (string, string) {
+			m := x.Vals["m"].(*model)
+			for i, k := range []key{keys[1], keys[2]} {
+				m.cache.OnResponse(lunarMessages.OnResponse{ID: "1" + fmt.Sprint(i), Method: k.Method, URL: k.URL, Status: 200, Headers: map[string]string{"h": "v"}, Body: "x"}, m.cc, map[string]string{"id": k.ID})
+			}
+			d, actual, _, max, _ := remedies.VerifCachingState(m.cache, time.Now())
+			x.Logf("entries=%d bytes=%.0f", strings.Count(d, ";")+1, actual*1024*1024)
+			if actual > max+1e-12 {
+				return "CACHE-SIZE:overwrite-growing", fmt.Sprintf("after two in-flight responses for one key and two further stores the cache holds %.0f bytes, configured maximum %.0f bytes (%s)", actual*1024*1024, max*1024*1024, d)
 			}
 			return "", ""
 		}})
